@@ -11,7 +11,7 @@
     short, long and visible alias the accessors return, the [nu-complete] definition with every possible value. *)
 From ClapModel Require Import Base.Bytes Complete.AotTree Complete.AotProofs Complete.BashProofs.
 From ClapModel Require Import Complete.FishModel Complete.FishProofs Complete.NushellModel Escape.EscapeModel.
-From ClapModel Require Complete.BuildTexts.
+From ClapModel Require Complete.BuildTexts Complete.FishLexProofs.
 From Coq Require Import String Lia.
 Open Scope N_scope.
 Open Scope list_scope.
@@ -487,6 +487,102 @@ Proof.
     exists dn, (NFx module_open :: node_pieces (bin_of c) c d false ++ l1 ++ pre), (post ++ l2 ++ [NFx module_close]).
     unfold nu_pieces, subs_pieces. rewrite E. cbn [fst snd is_nil negb]. rewrite E2, <- !app_assoc.
     cbn [app]. rewrite <- !app_assoc. reflexivity.
+Qed.
+
+(** EXACTLY one block per command: the module is the header, the root's block, then one block for every
+    proper descendant, in pre-order, then the trailer.  [nodes c] lists every tree position once. *)
+Fixpoint nodes (c : cmd) : list cmd :=
+  match c with
+  | mkCmd _ _ _ subs _ _ _ _ _ =>
+      c :: (fix go (l : list cmd) : list cmd := match l with [] => [] | sc :: t => nodes sc ++ go t end) subs
+  end.
+Lemma nodes_unfold c : nodes c = c :: flat_map nodes (c_subs c).
+Proof.
+  destruct c as [n al args subs bin h v s g]. cbn [nodes c_subs]. reflexivity.
+Qed.
+
+Lemma nodes_desc : forall c n, In n (nodes c) <-> n = c \/ desc c n.
+Proof.
+  induction c as [nm al args subs bin h v s g IH] using cmd_ind'. intros n.
+  set (c := mkCmd nm al args subs bin h v s g) in *. rewrite nodes_unfold. cbn [In]. rewrite Forall_forall in IH. split.
+  - intros [<-|H]; [left; reflexivity|right]. apply in_flat_map in H. destruct H as (sc & Hsc & Hn).
+    apply (IH sc Hsc) in Hn. destruct Hn as [->|Hd]; [apply desc_child; exact Hsc|eapply desc_step; eassumption].
+  - intros [->|Hd]; [left; reflexivity|right]. apply in_flat_map.
+    inversion Hd as [c0 sc Hin|c0 sc m Hin Hd']; subst.
+    + exists n. split; [exact Hin|]. apply (IH n Hin). left. reflexivity.
+    + exists sc. split; [exact Hin|]. apply (IH sc Hin). right. exact Hd'.
+Qed.
+
+Fixpoint tree_blocks (c : cmd) (d : cdesc) {struct c} : list (cmd * cdesc) :=
+  match c with
+  | mkCmd _ _ _ subs _ _ _ _ _ =>
+      (c, d) :: (fix go (l : list cmd) (dl : list cdesc) {struct l} : list (cmd * cdesc) :=
+                   match l with
+                   | [] => []
+                   | sc :: t => tree_blocks sc (hd cd0 dl) ++ go t (tl dl)
+                   end) subs (cd_subs d)
+  end.
+Definition subs_blocks (c : cmd) (d : cdesc) : list (cmd * cdesc) :=
+  flat_map (fun q : cmd * cdesc => tree_blocks (fst q) (snd q)) (zipd cd0 (c_subs c) (cd_subs d)).
+Lemma tree_blocks_unfold c d : tree_blocks c d = (c, d) :: subs_blocks c d.
+Proof.
+  destruct c as [n al args subs bin h v s g]. unfold subs_blocks. cbn [tree_blocks c_subs]. f_equal.
+  generalize (cd_subs d) as dl. induction subs as [|sc t IH]; intros dl; [reflexivity|].
+  cbn [zipd flat_map fst snd]. rewrite IH. reflexivity.
+Qed.
+
+Definition block_of (q : cmd * cdesc) : list npiece := node_pieces (bin_of (fst q)) (fst q) (snd q) true.
+
+Lemma zipd_flat_map_fst {B} (f : cmd -> list cmd) (g : cmd * cdesc -> list B) (h : B -> cmd) (l : list cmd) :
+  (forall sc, In sc l -> forall d, map h (g (sc, d)) = f sc) ->
+  forall dl, map h (flat_map g (zipd cd0 l dl)) = flat_map f l.
+Proof.
+  induction l as [|sc t IH]; intros H dl; [reflexivity|].
+  cbn [zipd flat_map]. rewrite map_app, (H sc (or_introl eq_refl)), IH; [reflexivity|].
+  intros x Hx. apply H. right. exact Hx.
+Qed.
+
+Lemma tree_blocks_nodes : forall c d, map fst (tree_blocks c d) = nodes c.
+Proof.
+  induction c as [nm al args subs bin h v s g IH] using cmd_ind'. intros d.
+  set (c := mkCmd nm al args subs bin h v s g) in *.
+  rewrite tree_blocks_unfold, nodes_unfold. cbn [map fst]. f_equal. unfold subs_blocks.
+  apply (zipd_flat_map_fst nodes (fun q : cmd * cdesc => tree_blocks (fst q) (snd q)) fst).
+  intros sc Hsc d'. rewrite Forall_forall in IH. apply (IH sc Hsc).
+Qed.
+
+Lemma flat_map_flat_map {A B C} (f : A -> list B) (g : B -> list C) l :
+  flat_map g (flat_map f l) = flat_map (fun a => flat_map g (f a)) l.
+Proof. induction l as [|a l IH]; [reflexivity|]. cbn [flat_map]. rewrite flat_map_app, IH. reflexivity. Qed.
+
+Lemma tree_pieces_blocks : forall c d, tree_pieces c d = flat_map block_of (tree_blocks c d).
+Proof.
+  induction c as [nm al args subs bin h v s g IH] using cmd_ind'. intros d.
+  set (c := mkCmd nm al args subs bin h v s g) in *.
+  rewrite tree_pieces_unfold, tree_blocks_unfold. cbn [flat_map]. unfold block_of at 1. cbn [fst snd]. f_equal.
+  unfold subs_pieces, subs_blocks. rewrite flat_map_flat_map.
+  apply FishLexProofs.flat_map_ext_in. intros [sc dsc] Hin. cbn [fst snd].
+  rewrite Forall_forall in IH. apply IH. exact (zipd_in_fst cd0 (c_subs c) (cd_subs d) (sc, dsc) Hin).
+Qed.
+
+Theorem nu_pieces_blocks c d :
+  nu_pieces c d = NFx module_open :: node_pieces (bin_of c) c d false
+                  ++ flat_map block_of (subs_blocks c d) ++ [NFx module_close] /\
+  map fst (subs_blocks c d) = flat_map nodes (c_subs c) /\
+  (forall n, In n (flat_map nodes (c_subs c)) <-> desc c n).
+Proof.
+  split; [|split].
+  - unfold nu_pieces. do 2 f_equal. f_equal. unfold subs_pieces, subs_blocks. rewrite flat_map_flat_map.
+    apply flat_map_ext. intros q. apply tree_pieces_blocks.
+  - unfold subs_blocks.
+    apply (zipd_flat_map_fst nodes (fun q : cmd * cdesc => tree_blocks (fst q) (snd q)) fst).
+    intros sc _ d'. apply tree_blocks_nodes.
+  - intros n. assert (H := nodes_desc c n). rewrite nodes_unfold in H. cbn [In] in H. split.
+    + intros Hn. apply in_flat_map in Hn. destruct Hn as (sc & Hsc & Hn). apply nodes_desc in Hn.
+      destruct Hn as [->|Hd]; [apply desc_child; exact Hsc|eapply desc_step; eassumption].
+    + intros Hd. inversion Hd as [c0 sc Hin|c0 sc m Hin Hd']; subst; apply in_flat_map.
+      * exists n. split; [exact Hin|]. apply nodes_desc. left. reflexivity.
+      * exists sc. split; [exact Hin|]. apply nodes_desc. right. exact Hd'.
 Qed.
 
 (** which line mentions a spelling *)
